@@ -487,11 +487,11 @@ class NumericValue(Value):
 
         raise ValueTypeError("[{}] is not valid integer, character literal, or hex value".format(value))
 
-    def get_negative(self):
-        if not self.negative:
+    def get_negative(self, size=2):
+        if not self.negative or self.int == 0:
             return self.int
 
-        return 0x100 - self.int if self.int <= 128 else 0x10000 - self.int
+        return 0x100 - self.int if self.int <= 128 and size <= 2 else 0x10000 - self.int
 
     def hex(self, size=0):
         if self.size_hint and size == 0:
@@ -500,7 +500,7 @@ class NumericValue(Value):
             size = self.hex_len()
             size += 1 if size % 2 == 1 else 0
         format_specifier = "{{:0>{}X}}".format(size)
-        return format_specifier.format(self.get_negative())
+        return format_specifier.format(self.get_negative(size))
 
     def hex_len(self):
         if self.size_hint is not None:
